@@ -986,8 +986,11 @@ pub fn match_expression(
                 crate::patterns::PatternMatchSemantics::OptionGuard,
             )?,
         };
+        // A guard may only mention variables its pattern binds, so it is
+        // evaluated only for an arm whose pattern matched.
         let passed_guard = match &arm.guard {
-            Some(guard) => guard_expression_true(guard, &guard_env, p)?,
+            Some(guard) if matched => guard_expression_true(guard, &guard_env, p)?,
+            Some(_) => false,
             None => true,
         };
         if matched && passed_guard {
@@ -1142,7 +1145,8 @@ fn match_validate_arm_kinds(
             )?,
         };
         let passed_guard = match &arm.guard {
-            Some(guard) => guard_expression_true(guard, &arm_env, p)?,
+            Some(guard) if applicable => guard_expression_true(guard, &arm_env, p)?,
+            Some(_) => false,
             None => true,
         };
         if !(applicable && passed_guard) {
